@@ -10,7 +10,6 @@ from common import q
 OPS = ["grad", "lap", "div", "jac", "rot", "partial", "nd", "conv", "sym", "mdiv"]
 IMPL_NAME = dict(grad="grad", lap="laplacian", div="div", jac="jac", rot="rot", partial="partial",
                  nd="normal_derivative", conv="convective", sym="sym_grad", mdiv="matrix_div")
-ANY_RANK = {"grad", "lap", "div", "partial", "nd"}      # documented per row, accept every batch rank
 BATCH_FORM = {"grad", "lap", "div", "jac", "partial"}    # have a batch-level (sum-trick) form in the model
 U = {"f64": 2.0 ** -53, "f32": 2.0 ** -24}
 TOLF = 256.0                                             # tolerance = TOLF * u * (running error bound of the model)
@@ -185,6 +184,10 @@ def gen_case(rng, op, thorough=False):
         if op == "div" and rng.random() < 0.04 and tot > 1:
             out = out[:-1]
             malformed = "narrow"
+        if op == "sym" and rng.random() < 0.08:
+            # non-square Jacobian: rejected, or (single row / single column) broadcast by torch — mirrored, no oracle
+            out = [comp() for _ in range(rng.choice([m for m in (1, 2, 3, 4) if m != tot]))]
+            malformed = "sym-nonsquare"
     elif op == "rot":
         out = [comp() for _ in range(3)]
     elif op in ("jac", "conv"):
@@ -195,15 +198,13 @@ def gen_case(rng, op, thorough=False):
         nx = tot
         if op == "nd" and rng.random() < 0.08 and tot > 1:
             nx = 1                                                       # broadcast normals
-        if op == "conv" and rng.random() < 0.04:
+        if op == "conv" and rng.random() < 0.04 and tot >= 2:   # tot = 1 would broadcast in some formulations
             nx = tot + 1
             malformed = "shape"
         extra = [gen_expr(rng, all_coords, rng.choice([0, 0, 1, 2]), True, 2) for _ in range(nx)]
     # batch
-    if op in ANY_RANK:
-        batch = rng.choice([[1], [2], [3], [5], [2, 2], [1, 3], [3, 2], [2, 1, 2], [1, 2, 2]])
-    else:
-        batch = rng.choice([[1], [2], [3], [4], [5]])
+    # every operator works on the trailing axes: no batch axis (a single point), one, two or three batch axes
+    batch = rng.choice([[1], [2], [3], [5], [2], [3], [4], [2, 2], [1, 3], [3, 2], [2, 1, 2], [1, 2, 2], []])
     n = math.prod(batch)
     rows = [[q(Fraction(rng.randint(-16, 16), 8)) for _ in all_coords] for _ in range(n)]
     case = dict(op=op, vars=vars_, out=out, deriv=deriv, extra=extra, batch=batch, rows=rows,
@@ -556,16 +557,19 @@ def judge(rep, case, impl, oracle, models):
     if mal:
         rep.count("malformed:" + mal)
         got = impl.get("error")
-        if flt is not None and flt.get("error") != got:
-            rep.disagree(f"rejected inputs ({mal}): drivers/C03.lean vs {IMPL_NAME[op]}", case,
-                         impl.get("error") or "no error", flt.get("error") or "no error")
-        return
+        if got is not None or flt is None or impl.get("badbatch"):
+            return          # rejecting a malformed input is always fine (the model may mirror an oddity that a stricter code refuses)
+        if flt.get("error"):
+            rep.disagree(f"malformed input ({mal}) accepted by {IMPL_NAME[op]} but rejected by drivers/C03.lean", case,
+                         dict(shape=impl["shape"]), "err:" + flt["error"])
+            return
+        rep.count("malformed-but-accepted:" + mal)   # mirrored oddity: correspondence only, below
     # ---- property oracle 1: no error, the analytic value at every row
-    if "error" in impl:
+    if "error" in impl and not mal:
         rep.fail(f"{describe(case)} raised instead of returning the derivative: {impl['message']}", case,
                  detail=dict(kinds=case["kinds"]))
         return
-    oshape, ovals = oracle
+    oshape, ovals = oracle if oracle is not None else (impl["shape"], [])
     if impl.get("badbatch") or impl["shape"] != oshape:
         rep.fail(f"{describe(case)}: result shape {impl['shape']} (batch part included if wrong), expected batch {case['batch']} + {oshape}", case)
         return
@@ -703,6 +707,16 @@ CORPUS += [
          dtype="f64", style=0, kinds=["leaf"], poly=True, outmode="slice", degenerate="leaf", inmode="points"),
     dict(op="lap", vars=[["x", 2]], out=[V("x", 1)], deriv=[0], extra=[], batch=[2], rows=[["1", "1/2"], ["3", "1/4"]],
          dtype="f64", style=0, kinds=["slice"], poly=True, outmode="slice", degenerate="slice"),
+    # jac / sym_grad on two batch axes silently returned shape (2,3,3,2); rot, convective, matrix_div raised
+    dict(op="jac", vars=[["x", 2]], out=[["*", ["^", V("x", 0), 2], V("x", 1)], ["*", V("x", 0), ["^", V("x", 1), 3]]], deriv=[0], extra=[],
+         batch=[2, 3], rows=[[q(Fraction(a, 2)), q(Fraction(b, 4))] for a in (1, 3) for b in (1, 2, 5)], dtype="f64", style=0,
+         kinds=["general"] * 2, poly=True),
+    dict(op="rot", vars=[["x", 3]], out=[["^", V("x", 1), 2], ["*", V("x", 2), V("x", 0)], ["*", V("x", 0), V("x", 1)]], deriv=[0], extra=[],
+         batch=[2, 2], rows=[[q(Fraction(a, 2)), q(Fraction(b, 4)), q(Fraction(a + b, 8))] for a in (1, 3) for b in (1, 5)], dtype="f32", style=0,
+         kinds=["general"] * 3, poly=True),
+    # a single point without batch axis
+    dict(op="jac", vars=[["x", 2]], out=[["*", V("x", 0), V("x", 1)], ["sin", V("x", 0)]], deriv=[0], extra=[], batch=[],
+         rows=[["3/2", "-5/4"]], dtype="f64", style=0, kinds=["general"] * 2, poly=False),
 ]
 
 
@@ -719,7 +733,7 @@ def run(ctx, rep, cases=None, use_driver=True):
     rep.rule = ("programs: random expressions (depth <= 5; + - * / ^ neg sin cos exp tanh; 35% polynomial = exact channel) over 1-3 "
                 "named inputs of dimension 1-3, forced shares of components that are constant / independent of / affine in / "
                 "bilinear / linear in the derivative variables; every operator, every admissible variable subset and order, "
-                "batch ranks 1-3 for the per-row operators, float32 and float64, four ways of slicing/assembling the tensors; "
+                "0-3 batch axes for every operator, float32 and float64, four ways of slicing/assembling the tensors; "
                 "points are dyadic k/8 in [-2,2]. non-trivial = some output depends on a derivative variable, depth >= 2, >= 2 rows; "
                 "distinct = distinct (operator, program, variables, batch, points)")
     cases = cases if cases is not None else gen_cases(ctx)
